@@ -21,6 +21,11 @@ CLAIMS = {
   text="Coq theorems C02_tree / C02_subexpressions: whenever the model of the generated parser succeeds, the value it assembled piecewise through the templates (post-processing, sequence destructure/extend, choice conversion and defaults, optional defaults, closure accumulation, struct/override/@string assembly) equals the value the specification builds from the ordered field-match events of the successful path grouped by declared arity; for every sub-expression the events mention only its own field names. Tied by the correspondence stream; oracle = implementation tree vs extracted S tree.",
   note=TB + "Stated for grammars without memo/leftrec and pure hooks (memoized grammars: C05). Box is invisible in Debug and is not compared.",
   technique="Coq simulation proof with value relation (templates' assembly = shape of events) + differential correspondence"),
+ "C03": dict(
+  category="proof",
+  text="Coq: C03_lattice (the nine-row choice table, the optional and closure tables and the sequence/choice rules regenerated from the source are the documented join One < Optional < Multiple), C03_arity_sound (for every grammar, expression and input, on the successful path of the PEG semantics every field-match event belongs to a declared field, a field declared plain is matched exactly once and an Option field at most once; proved by induction over the specification's evaluation, unbounded), C03_values_fit (hence the value of every rule match can be stored in the declared type: the arity-mismatch stuck state is unreachable), C03_field_type_single / C03_field_type_enum / C03_rule_kinds (the declaration emitters: arity decides Option/Vec, `*` decides Box, several types decide the generated enum, `char` is the built-in; @string, field-less, @position, override-only rules). Correspondence: the declarations the compiler model computes == the declarations read back from the token text of the real generator, for every stream grammar and derive set. Oracle: rustc compiles every accepted grammar under #![forbid(unsafe_code)] together with exact-type assertions generated from the MODEL's declarations (exhaustive destructuring, exhaustive match, `let _: &T`), including Rust-keyword rule and field names and custom derive sets; a committed corpus (corpus/rustc) pins the known failing shapes. Partial: that rustc accepts the parse functions is observed, not proved.",
+  note=TB + "Quantifier as given: recursive type cycles broken by * or Vec; names not colliding with prelude or peginator items (the generator's own locals state, global, iterations, __result count as peginator items). Two open known findings (field named like a unit-struct rule; @string rule with a multi-type field), two fixed.",
+  technique="Coq proof of arity soundness over the PEG specification + table facts regenerated from the source + compiler model vs generated declarations + rustc with model-generated exact-type assertions"),
  "C04": dict(
   category="proof",
   text="Coq theorem C04_all (instance of the generic invariant theorem Inv.m_invariant, proved for every grammar incl. @memoize/@leftrec, any decision-point configuration of record_error/arity tables, arbitrary stateful hooks whose extern functions return a boundary length): on valid UTF-8 input the model never reaches the runtime's panic sites (index, advance overrun, non-boundary advance = the cfg(peginator_verif) assertion), every state is anchored at a char boundary of the input with valid prefix and suffix, every reported error position is such a boundary (C04_boundary, C04_errpos); C04_guard / C04_guard_refuted: the compile-time ASCII guard of i-literals is present and load-bearing. The nine unchecked advance call sites are modelled one-to-one in Terminals.v and proved in TerminalsOk.v. Partial: stack exhaustion and the memory safety of get_unchecked itself are runtime facts; the theorem proves the precondition the unsafe block relies on.",
@@ -66,6 +71,11 @@ CLAIMS = {
   text="Coq: C14_checks_spec (a rule with checks matches iff body matches and every check is true on the produced value, first failure wins), C14_conform (M = S with checks/externs as pure oracles: verdict, value passed to checks, consumed bytes, error), C14_run_checks (for arbitrary stateful hooks: directive order, stop at first false, ordinary Err at the body's end state), C14_extern (extern receives exactly the remaining input and the user state; Ok((v,n)) yields v and advances n through the checked advance). Correspondence: hook invocation logs and results equal the model's, with and without a user context.",
   note=TB + "User functions are oracles; the harness ships a fixed library with Gallina twins (Hooks.v).",
   technique="Coq simulation proof + wrapper-level lemmas + differential correspondence of hook-call logs"),
+ "C15": dict(
+  category="proof",
+  text="Coq, about the compiler model (Compile.v: get_fields, check_flags, the per-rule error order, literal/range decoding in generation order, char and extern rules): C15_terminates (if a rank decreasing along every include exists, a fuel bound computed from the grammar suffices for every rule: the recursion over includes is bounded and the answer is code or an error), C15_cycle_overflows / C15_cycle_is_not_ranked (an include cycle diverges for every fuel: the stack overflow recorded as known finding), C15_accepted_rules_respect_the_restrictions (whenever a rule is accepted, none of the documented restrictions is broken anywhere in its body, at any depth and through any chain of includes: fields in lookaheads, missing/@char/@extern includes, invalid code points, non-ASCII i-literals, @string+@export, skipping Whitespace, @memoize/@leftrec without Clone, @export/@position on a plain override, multi-type @: outside arity One, mixing @: with named fields), C15_include_resolves_only_normal_rules, C15_invalid_code_points. Correspondence: ~900 (quick) grammar texts - valid, built to violate each restriction (one or two violating rules spliced in), character mutations, garbage, identifier spellings, include cycles, deep nesting - each compiled in its own process; outcome, failing rule, error class and payload equal the model's. Oracle: no panic/abort/hang outside the four classes recorded as known findings; peginator-cli exit status, Compile::run and run_exit_on_error report every failure class.",
+  note=TB + "Partial: the template-level panic sites (choice default for a One field, the sequence assert, the two expects in field.rs) are not yet proved unreachable in Coq; the stream never reaches them. Deep nesting and include cycles overflow the stack (known findings).",
+  technique="Coq proofs about a total compiler model (termination under well-founded includes, restrictions imply rejection) + per-process differential runs against the real front end and generator + exit-status checks of the tools"),
  "C16": dict(
   category="proof",
   text="Model-level theorems (thin; the tie carries most of the weight): C16_types_sorted / C16_types_canonical (the only order-relevant container of the generator, the per-field type set, is kept strictly sorted by type name, so the emitted enum variants depend only on the set of types), C16_routes (build-script output = header + prefix + the one generate_code output), C16_facts (the translator's scan for HashMap/HashSet/clock/environment/randomness in codegen, cli, macro and runtime finds exactly the known occurrences: a HashSet used for membership only in sequence.rs and the parse cache; all modelled files match their templates). Oracle: byte equality of the code from the library call in 5 fresh processes with different environments, the peginator-cli binary, Compile::run (after header and prefix); the peginate! route is compiled and run and must behave like the parser built from the library output. Partial: that the Rust code has no other hidden input is established by the scan and the oracle, not by a theorem.",
